@@ -106,6 +106,7 @@ fn render_container(kind: &str, types: &[String]) -> String {
     match kind {
         "contractmixed" => format!("pragma solidity 0.8.17;\nlibrary Lib {{}}\ncontract Holder {{\n{}}}\n", mixed),
         "contract" => format!("pragma solidity 0.8.17;\n\ncontract Holder {{\n{}}}\n", members),
+        "abstractcontract" => format!("pragma solidity 0.8.17;\n\nabstract contract Base {{\n{}}}\n", members),
         "filestruct" => format!("pragma solidity 0.8.17;\n\nstruct Rec {{\n{}}}\n", members),
         _ => format!("pragma solidity 0.8.17;\n\ncontract Outer {{\n  struct Rec {{\n{}  }}\n}}\n", members),
     }
@@ -114,7 +115,7 @@ fn render_container(kind: &str, types: &[String]) -> String {
 /// line on which the container begins in the rendering above
 fn container_line(kind: &str) -> i32 {
     match kind {
-        "contract" | "contractmixed" | "filestruct" => 3,
+        "contract" | "abstractcontract" | "contractmixed" | "filestruct" => 3,
         _ => 4,
     }
 }
@@ -165,7 +166,7 @@ pub fn replay(behaviours: &str, out: &mut Outcome) {
                 sp[(idx + i * 7) % sp.len()].clone()
             })
             .collect();
-        for (kind, det) in [("contract", pack_storage), ("contractmixed", pack_storage), ("filestruct", pack_struct), ("innerstruct", pack_struct)] {
+        for (kind, det) in [("contract", pack_storage), ("abstractcontract", pack_storage), ("contractmixed", pack_storage), ("filestruct", pack_struct), ("innerstruct", pack_struct)] {
             let src = render_container(kind, &types);
             check_verdict(out, &src, kind, det, &sizes, &verdict, container_line(kind));
         }
